@@ -167,7 +167,9 @@ type Case struct {
 // tokens the fields are built from
 var tokens = []string{"", "a", "b", " ", "\t", "\v", "\f", "\r", "\u00a0", "\u0085", "\u2003", "\u3000", "\u2028", "\u1680", "\u200b", "\ufeff", "0", "\x00", "é", "\xa0", "\x85"}
 
-func fields(tier string) []string {
+// fieldsUpTo returns all strings of at most n tokens (n <= 3; the third token
+// ranges over a reduced set).
+func fieldsUpTo(n int) []string {
 	seen := map[string]bool{}
 	var out []string
 	add := func(s string) {
@@ -178,29 +180,47 @@ func fields(tier string) []string {
 	}
 	for _, a := range tokens {
 		add(a)
+		if n < 2 {
+			continue
+		}
 		for _, b := range tokens {
 			add(a + b)
-			if tier == "thorough" {
-				for _, c := range []string{" ", "\u00a0", "a", "\f", "\xa0"} {
-					add(a + b + c)
-				}
+			if n < 3 {
+				continue
+			}
+			for _, c := range []string{" ", "\u00a0", "a", "\f", "\xa0"} {
+				add(a + b + c)
 			}
 		}
 	}
 	return out
 }
 
+// lineSet: quick - one field of up to 2 tokens, the other of at most 1;
+// thorough - (up to 3, at most 1), (at most 1, up to 3) and (up to 2, up to 2).
 func lineSet(tier string) []string {
-	fs := fields(tier)
+	seen := map[string]bool{}
 	var lines []string
-	for _, f1 := range fs {
-		for _, f2 := range fs {
-			if tier != "thorough" && len(f1) > 0 && len(f2) > 0 && (len([]rune(f1)) > 1 && len([]rune(f2)) > 1) {
-				// quick: one of the two fields has at most one token
-				continue
+	cross := func(as, bs []string) {
+		for _, f1 := range as {
+			for _, f2 := range bs {
+				l := f1 + "|" + f2 + "|"
+				if !seen[l] {
+					seen[l] = true
+					lines = append(lines, l)
+				}
 			}
-			lines = append(lines, f1+"|"+f2+"|")
 		}
+	}
+	one, two := fieldsUpTo(1), fieldsUpTo(2)
+	if tier == "thorough" {
+		three := fieldsUpTo(3)
+		cross(three, one)
+		cross(one, three)
+		cross(two, two)
+	} else {
+		cross(two, one)
+		cross(one, two)
 	}
 	// lines that do not match at all
 	lines = append(lines, "", "zzz", "a|b", " ", "|")
@@ -613,7 +633,7 @@ func main() {
 		Properties: []string{"C01"},
 		Level:      "model_checking",
 		Rule: func(prop, tier string) string {
-			return fmt.Sprintf("classification clause of C01 on the real batcher + extractor (free-running goroutines; the result may not depend on the schedule): one input of %d lines `F1|F2|` where F1, F2 range over all strings of up to 2 (thorough: 3) tokens from {empty, a, b, blank, TAB, VT, FF, CR, NBSP, NEL, EM SPACE, IDEOGRAPHIC SPACE, LINE SEPARATOR, OGHAM SPACE, ZERO WIDTH SPACE, BOM, 0, NUL, é, the lone bytes 0xA0 and 0x85} (quick: at most one of the two fields has two tokens) plus 5 lines that do not match; x matcher {regex, dissect} x key expression {{1},{0},{2},{1}{2}} x %d sets of ignore expressions over {{2},{1},{eq {1} b},' ',{2}{1},TAB{2}LF} (order matters: any truthy expression ignores) x (workers, batch) grid incl. workers 0 (default) ; every emitted match is mapped to its line by line number. Oracle: matched iff the line has both bars, no ignore expression is non-blank (blank = only Unicode White_Space; strings where a byte that is not valid UTF-8 would decide are not judged) and the key is not the empty string (a key of blanks is a key); key text; no line emitted twice; totals. Size family: n numbered lines `k<i>|y or x|` (every third is selected by the ignore expression {eq {2} x}) for n = 0..70, 999..1001, 1999..2001 and 2^k-1, 2^k, 2^k+1 (k = 7..14 quick / 17 thorough), and three lines whose middle one has a first field of n bytes (k up to 17 / 18: beyond the 128 KiB read buffer), x (workers, batch) in {(1,1),(2,7),(default,1000),(3,1001)} x ignore on/off, regex and dissect alternating; every line must come out exactly once under its own number with its own key. non-trivial = the line matches the pattern", len(lineSet(tier)), len(ignoreSets))
+			return fmt.Sprintf("classification clause of C01 on the real batcher + extractor (free-running goroutines; the result may not depend on the schedule): one input of %d lines `F1|F2|` where one of F1, F2 ranges over all strings of up to 2 tokens (thorough: 3, the third from 5 kinds) and the other over at most 1 (thorough also: both up to 2) tokens from {empty, a, b, blank, TAB, VT, FF, CR, NBSP, NEL, EM SPACE, IDEOGRAPHIC SPACE, LINE SEPARATOR, OGHAM SPACE, ZERO WIDTH SPACE, BOM, 0, NUL, é, the lone bytes 0xA0 and 0x85} plus 5 lines that do not match; x matcher {regex, dissect} x key expression {{1},{0},{2},{1}{2}} x %d sets of ignore expressions over {{2},{1},{eq {1} b},' ',{2}{1},TAB{2}LF} (order matters: any truthy expression ignores) x (workers, batch) grid incl. workers 0 (default) ; every emitted match is mapped to its line by line number. Oracle: matched iff the line has both bars, no ignore expression is non-blank (blank = only Unicode White_Space; strings where a byte that is not valid UTF-8 would decide are not judged) and the key is not the empty string (a key of blanks is a key); key text; no line emitted twice; totals. Size family: n numbered lines `k<i>|y or x|` (every third is selected by the ignore expression {eq {2} x}) for n = 0..70, 999..1001, 1999..2001 and 2^k-1, 2^k, 2^k+1 (k = 7..14 quick / 17 thorough), and three lines whose middle one has a first field of n bytes (k up to 17 / 18: beyond the 128 KiB read buffer), x (workers, batch) in {(1,1),(2,7),(default,1000),(3,1001)} x ignore on/off, regex and dissect alternating; every line must come out exactly once under its own number with its own key. non-trivial = the line matches the pattern", len(lineSet(tier)), len(ignoreSets))
 		},
 		Assumptions: func(string) []string {
 			return []string{"whitespace in 'False is an empty value (or only whitespace)' is read as the Unicode White_Space property (which is what Go, the implementation language, calls space); zero-width space and BOM are not White_Space and therefore truthy", "schedules are whatever the Go runtime gives (the schedule-exhaustive part of C01 is the pipeline harness); a schedule-dependent result would show up as a non-reproducible violation"}
